@@ -13,4 +13,6 @@ open BHS.Props.C02
 #print axioms C02_aggregate
 #print axioms C02_tracks_reorg_off
 #print axioms C02_tracks_reorg_on
+#print axioms C02_verdict_translated
+#print axioms C02_severity_translated
 #print axioms BHS.Props.SqlShape.verify_statements
